@@ -176,6 +176,7 @@ fn main() {
                     let tail: String = stderr.lines().rev().take(6).collect::<Vec<_>>().into_iter().rev().collect::<Vec<_>>().join(" | ");
                     if eng == "e4" && stderr.contains("Undefined Behavior") {
                         let path = format!("{}/replays/{}-miri-{}-{}.txt", verif_root(), prop, seed, i);
+                        std::fs::create_dir_all(format!("{}/replays", verif_root())).ok();
                         std::fs::write(&path, &stderr).ok();
                         let ctxv = json!({"engine": "e4", "seed": seed, "shard": format!("{i}/{denom}"), "stderr_file": path});
                         let dummy = dummy_ctx(&prop, tier, seed, eng);
@@ -184,6 +185,7 @@ fn main() {
                     } else if eng == "e3" && status.code() == Some(77) {
                         // AddressSanitizer report: a memory error inside the code under test
                         let path = format!("{}/replays/{}-asan-{}-{}.txt", verif_root(), prop, seed, i);
+                        std::fs::create_dir_all(format!("{}/replays", verif_root())).ok();
                         std::fs::write(&path, &stderr).ok();
                         let ctxv = json!({"engine": "e3", "seed": seed, "shard": i, "stderr_file": path});
                         let dummy = dummy_ctx(&prop, tier, seed, eng);
